@@ -64,7 +64,7 @@ def gen_cases(rng, n):
 
 def run(ctx):
     rng = random.Random(ctx["seed"])
-    n = 20000 if ctx["tier"] == "thorough" else 500
+    n = 20000 if ctx["tier"] == "thorough" else 1500
     cases = simcheck.load_corpus("C12") + gen_cases(rng, n)
     results = simcheck.run_cases(ctx, "harness.props.c12", cases)
     return simcheck.summarise(ctx, cases, results,
